@@ -4,6 +4,8 @@ learner: structural predicates on a definition (call-site style keys, DESIGN.md 
 """
 from __future__ import annotations
 
+import os
+
 import json
 from typing import Any
 
@@ -118,9 +120,10 @@ def finding_classes(d: Any) -> set[str]:
 
 def build_cases(ctx: Ctx, n_random: int, sizes: list[int], with_corpus: bool, multi_start: bool = False,
                 k: int = 2, f_adjacent: bool = False, bunched: bool = False,
-                loops_on_exits: bool = False) -> list[dict[str, Any]]:
+                loops_on_exits: bool = False, unusual_names: float = 0.15) -> list[dict[str, Any]]:
     """definitions with their complete job sets (loops 1..k), as Lean's `runs` enumerates them"""
     r = ctx.rng
+    unusual_names = float(os.environ.get("O2P_UNUSUAL_RATE", unusual_names))    # calibration runs raise it to 1
     defs: list[dict[str, Any]] = []
     for d in pvlib.enumerate_small():
         defs.append({"kind": "small", "blk": d})
@@ -185,6 +188,12 @@ def build_cases(ctx: Ctx, n_random: int, sizes: list[int], with_corpus: bool, mu
             ctx.tick("skipped_too_many_runs")
             continue
         c["jobs"] = rp["jobs"]
+        if "blk" in c and unusual_names and r.random() < unusual_names:
+            # the same definition under unusual but valid event names (the judge compares names as strings)
+            m = pvlib.unusual_renaming(r, pvlib.def_names(c["blk"]))
+            c["blk"] = pvlib.rename_def(c["blk"], lambda n: m[n])
+            c["jobs"] = [[{**e, "typ": m[e["typ"]]} for e in j] for j in c["jobs"]]
+            ctx.tick("def_with_unusual_names")
         if "blk" not in c:
             pr = pvlib.lean([{"op": "dg.parse", "text": c["text"]}])[0]
             c["blk"] = pr["blk"]
